@@ -174,8 +174,10 @@ def finish(prop, tier, seed, units, results, wall, verbose=False, partial=False,
             lines.append('CHECKER-ERROR property=%s unit=%s case=%s mode=%s explored no feasible path (vacuous precondition?)'
                          % (prop, r['unit'], r['case'], r['mode']))
             exit_code = 3
+    kf_ids = {id(rec) for _, rec in known_seen}
+    proof_recs = [r for r in proof_recs if id(r) not in kf_ids]          # obligations of recorded findings are listed separately
     if baseline_out and not partial:
-        write_baseline(prop, all_recs)
+        write_baseline(prop, [r for r in all_recs if id(r) not in kf_ids])
     if not partial:
         write_evidence(prop, tier, seed, units, results, proof_recs, bounded_recs, violations, undecided, known_seen, wall, exit_code)
     for ln in lines:
@@ -246,6 +248,7 @@ def write_evidence(prop, tier, seed, units, results, proof_recs, bounded_recs, v
             'assumed_library_contracts_used': assumed,
             'undecided': [r['name'] for r in undecided],
             'known_findings_seen': sorted({k['id'] for k, _ in known_seen}),
+            'known_finding_obligations_not_counted': sorted({rec['name'] for _, rec in known_seen})[:40],
             'samples': samples,
             'explanation': 'verification conditions generated from the AST of the real /repo sources on this run; see DESIGN.md',
         },
